@@ -84,3 +84,14 @@ Theorem C05_source_constructor : forall c minSeconds,
           [AInt (fenc (f64_div (f64_of_Z (minSeconds * r_fps c)) (r_refill_secs c)));
            AInt (f64_trunc (r_bucket_secs c) * r_fps c); ASym "clock"]) (cw_calls w').
 Proof. exact tie_NewThrottledRecorder. Qed.
+
+From TR Require Import proofs.Bridges.
+
+(* ---- the wiring this property depends on, as cmd/thermal-recorder/main.go builds it now (proofs/TieConn.v, restated
+   in proofs/Bridges.v): ONE processor and - when activated - ONE throttle per connection, built before the frame loop;
+   the loop itself only resets and feeds that processor (a camera 'clear' does not rebuild anything, so the bucket and
+   the throttle's recording state live exactly as long as the connection) *)
+Theorem C05_source_handleConn : BConn.handleConn_source_tie_stmt.
+Proof. exact BConn.handleConn_source_tie. Qed.
+Theorem C05_source_wiring : BConn.wiring_stmt.
+Proof. exact BConn.wiring. Qed.
